@@ -186,7 +186,9 @@ fn hs_a<H: Copy + Pl, T: Copy + Pl, const N: usize>(h: H, vals: [T; N]) {
     drop(a);
     all_freed(1);
     // iter -> thin -> clone -> drop thin, drop as fat
-    let a = Arc::from_header_and_iter(HeaderWithLength::new(h, N), vals.iter().copied());
+    // (0..N).map(..) rather than vals.iter(): the length of an EMPTY slice iterator is pointer arithmetic on a
+    // dangling pointer, which CBMC leaves symbolic - and a symbolic length means a symbolic-size allocation
+    let a = Arc::from_header_and_iter(HeaderWithLength::new(h, N), (0..N).map(|i| vals[i]));
     {
         let (size, al, _, off_s) = reference(size_of::<HeaderWithLength<H>>(), align_of::<HeaderWithLength<H>>(), size_of::<T>(), align_of::<T>(), N as u128);
         let b = block_nr(1);
